@@ -135,6 +135,15 @@ func main() {
 			}
 		}
 	}
+	// msc vote family: its own chain with a long epoch so that vote, vote, plain, seal fit between two checkpoints
+	const mscVoteChain = 601
+	mscVoteRouter := posa.RouterByName(posa.Routers(famEpoch, borSprint), "msc")
+	if err := mscVoteRouter.Register(w, env.Vals, mscVoteChain, 1, []byte{1, 2, 3}); err != nil {
+		r.HarnessError("%v", err)
+	}
+	if sc, err := side_chain_manager.GetSideChain(hsenv.Reader(w), mscVoteChain); err != nil || sc == nil {
+		r.HarnessError("side chain %d (msc votes) not registered: %v", mscVoteChain, err)
+	}
 	base := w.Dump()
 	w.Close()
 
@@ -233,6 +242,31 @@ func main() {
 		}
 		if pm, ok := per[rt.Name].(map[string]any); ok {
 			pm["handover_families"] = fams
+		}
+	}
+	// --- msc vote family (the only router whose signer set changes by in-header Coinbase/Nonce votes): epoch 8, trust
+	// root 1000 listing k0,k1,k2; on the tip every sealer x both difficulties x {plain, authorise k3, drop k0 (thorough
+	// also the meaningless votes: authorise signer k0, drop non-signer k3)} to depth 4: two votes reach the majority of
+	// three, a plain header follows, then the dropped / the added key seals. Model: clique tally of model.go.
+	if len(only) == 0 || only["msc"] {
+		m := &model{rt: mscVoteRouter, keys: keys, epoch: famEpoch, gprev: listCodes["A"]}
+		g, graw := genesis(m, 1000)
+		votes := []spec{{vote: -1}, {vote: 3, auth: true}, {vote: 0, auth: false}}
+		if r.Thorough() {
+			votes = append(votes, spec{vote: 0, auth: true}, spec{vote: 3, auth: false})
+		}
+		opt := &famOpt{name: "votes", nkeys: len(keys), votes: votes}
+		st := explore(r, env, m, sims, base, mscVoteChain, g, graw, 4, workers, opt)
+		totalStates += st.States
+		totalTrans += st.Transitions
+		if st.Truncated {
+			r.Capped("msc/votes: deadline")
+		}
+		if pm, ok := per["msc"].(map[string]any); ok {
+			pm["vote_family"] = map[string]any{"epoch": famEpoch, "depth": 4, "vote_alternatives": len(votes), "states": st.States, "transitions": st.Transitions, "per_depth": st.PerDepth}
+		}
+		if len(only) == 0 {
+			r.Require("msc:votes:accept", "msc:votes:accept-under-new-set", "msc:votes:reject:signer-not-in-validator-set", "msc:votes:reject:signer-within-recent-window")
 		}
 	}
 	if len(only) == 0 { // (ev.Finish reports violations before the vacuity guard)
